@@ -10,7 +10,7 @@ from .. import dedupelab as D
 ID = "C20"
 LEVEL = "exploration"
 RULE = ("two (quick) / three (thorough) groups of 3 identical files; every subset of the droppable members locked by a "
-        "foreign process holding fcntl write locks (thorough: also read locks) x op {remove, link, link --soft, dedupe, "
+        "foreign process holding fcntl write locks or read (shared) locks x op {remove, link, link --soft, dedupe, "
         "move} x {default, --no-lock}. Oracle: locked members keep inode, bytes and path and are named in a warning; "
         "every other droppable member is processed; with --no-lock every droppable member is processed. "
         "Non-trivial = at least one member locked; distinct by (subset, lock type, op, flag).")
@@ -47,7 +47,7 @@ def cases(tier, seed):
     ng = 2 if quick else 3
     droppable = ["r/b/g%d_1" % g for g in range(ng)] + ["r/c/g%d_2" % g for g in range(ng)]
     out = []
-    for mode in (["write"] if quick else ["write", "read"]):
+    for mode in ("write", "read"):
         for r in range(len(droppable) + 1):
             for sub in itertools.combinations(droppable, r):
                 for op in ("remove", "link", "softlink", "dedupe", "move"):
